@@ -36,3 +36,32 @@ PLANS = {
         ],
     ),
 }
+
+STREAM = "rpyc/core/stream.py::"
+CHANNEL = "rpyc/core/channel.py::"
+STREAM_FUNCS = [STREAM + n for n in ("ClosedFile.fileno", "SocketStream.close", "SocketStream.read", "SocketStream.write",
+                                     "PipeStream.close", "PipeStream.read", "PipeStream.write")]
+CHANNEL_FUNCS = [CHANNEL + "Channel.send", CHANNEL + "Channel.recv"]
+COMMON_ASSUMPTIONS = PLANS["C04"]["assumptions"][:3]
+
+PLANS["C05"] = dict(
+    title="Packets arrive whole, in order and unaltered however the transport fragments",
+    contracts=["brine", "compat", "externals", "stream", "channel"], specs=["brine_spec", "channel_spec"], table="module",
+    targets=STREAM_FUNCS + CHANNEL_FUNCS, lemmas=[], compositions=["C05/sequence-step"],
+    native_focus=[(STREAM + "SocketStream.read", "default"), (STREAM + "SocketStream.write", "default"),
+                  (CHANNEL + "Channel.send", "default"), (CHANNEL + "Channel.recv", "roundtrip")],
+    design_ref="DESIGN.md section 4, C05",
+    assumptions=COMMON_ASSUMPTIONS + [
+        "A-FIFO: a connected socket / pipe pair delivers the bytes accepted at one end to the other end in order, unmodified",
+        "library models of socket.recv/send/shutdown/close, os.read/os.write, pipe ends (contracts/externals.py): "
+        "recv returns any non-empty prefix (<= k) of the pending input, b'' at end of stream, socket.timeout, or "
+        "socket.error with any errno; send accepts any prefix; close() does not raise",
+        "zlib: decompress(compress(d, level)) == d; decompress raises zlib.error on anything it rejects",
+        "T-STRUCT for '!LB'",
+        "single reader / single writer per stream (the `schedules` part of the quantifier is not covered)",
+        "termination of the retry loops is not proved (a transport that times out forever blocks forever)",
+        "scope: packet length (raw and compressed) < 2**32",
+        "Channel is verified against SocketStream's read/write/close contracts; PipeStream's contracts have the same "
+        "shape over its own ghost buffers (stated, compared by inspection)",
+    ],
+)
